@@ -25,4 +25,27 @@ VERIF_CONTRACT(__CPROVER_requires(bsz == 16 && __CPROVER_is_fresh(buf, 16) && __
 		(buf[0] - '0') * 1000 + (buf[1] - '0') * 100 + (buf[2] - '0') * 10 + (buf[3] - '0') == S_iso_year_of(GY_d(that), GYD_d(that)) &&
 		buf[0] >= '0' && buf[0] <= '9' && buf[1] >= '0' && buf[1] <= '9' && buf[2] >= '0' && buf[2] <= '9' && buf[3] >= '0' && buf[3] <= '9')
 	__CPROVER_assigns(__CPROVER_object_upto(buf, 16), *d));
+
+#if !defined VERIF_NATIVE
+/* C10: a numeric date specifier never writes outside buf[0..bsz) and reports at most bsz bytes, for EVERY remaining buffer size
+ * (direct-mode harness on the real __strfd_card; the buffer is a heap object of exactly bsz bytes, so any write past it is a
+ * bounds violation found by CBMC's pointer checks) */
+static void h_strfd_card_mem(void)
+{
+	size_t bsz; struct dt_spec_s s; struct strpd_s d = {0}; struct dt_d_s that = {DT_DUNK}; uint32_t u;
+	__CPROVER_assume(bsz >= 1 && bsz <= 12);
+	char *buf = malloc(bsz);
+	__CPROVER_assume(buf != NULL);
+	that.typ = DT_YMD; that.ymd.u = u;
+	__CPROVER_assume(V_YMD(that.ymd));
+	d.y = that.ymd.y; d.m = that.ymd.m; d.d = that.ymd.d;
+	__CPROVER_assume(s.tai == 0 && s.rom == 0 && s.bizda == 0 &&
+		(s.spfl == DT_SPFL_N_DSTD || s.spfl == DT_SPFL_N_YEAR || s.spfl == DT_SPFL_N_MON || s.spfl == DT_SPFL_N_DCNT_MON ||
+		 s.spfl == DT_SPFL_N_DCNT_WEEK || s.spfl == DT_SPFL_N_WCNT_MON || s.spfl == DT_SPFL_S_QTR || s.spfl == DT_SPFL_N_QTR ||
+		 s.spfl == DT_SPFL_LIT_PERCENT || s.spfl == DT_SPFL_LIT_TAB || s.spfl == DT_SPFL_LIT_NL || s.spfl == DT_SPFL_N_DCNT_YEAR ||
+		 s.spfl == DT_SPFL_N_WCNT_YEAR));
+	size_t n = __strfd_card(buf, bsz, s, &d, that);
+	__CPROVER_assert(n <= bsz, "MEMSAFE: __strfd_card reports at most bsz bytes");
+}
+#endif
 #endif
